@@ -4,7 +4,7 @@
    history := op { ';' op }
    op      := 'L' decl*          create a module from the declarations (in order), finish it, load it
             | 'X' n a            MIR_load_external ("n<n>", ext function number a)
-            | 'R' 0|1            MIR_set_func_redef_permission
+            | 'R' <int>          MIR_set_func_redef_permission (any int: non-zero = permitted)
             | 'K' mask iface     MIR_link (iface: i = interpreter, g = generator, l = lazy generator,
                                  q = interpreter, but no accessor is executed after this link);
                                  the import resolver resolves name n iff bit n of mask is set
@@ -437,8 +437,15 @@ static int do_op (char *op) {
     break;
   }
   case 'R': {
-    MIR_set_func_redef_permission (ctx, atoi (op + 1));
-    printf ("ok");
+    /* any int is a C truth value here (1, 2, -1, 256, INT_MIN ...): the model takes non-zero as permission;
+       the value read back through the public getter must agree as a truth value */
+    long long pv = strtoll (op + 1, NULL, 0);
+    int want = pv != 0;
+    MIR_set_func_redef_permission (ctx, (int) pv);
+    if ((MIR_get_func_redef_permission_p (ctx) != 0) == want)
+      printf ("ok");
+    else
+      printf ("ok permission-reads-back-as-%d", MIR_get_func_redef_permission_p (ctx));
     break;
   }
   case 'K': {
